@@ -4,11 +4,12 @@
 #include <ufw/register-table.h>
 
 #define MAXA 8
-#define MAXE 16
+#define MAXE 64
 
 static RegisterArea areas[MAXA + 1];
 static RegisterEntry entries[MAXE + 1];
 static RegisterTable table;
+static RegisterTable *the_table(void) { return &table; }
 static size_t na, ne;
 static RegisterAtom *store[MAXA];       /* exact-size heap blocks: storage of every area */
 static bool is_mem[MAXA];
@@ -31,11 +32,23 @@ cb_read(const RegisterArea *a, RegisterAtom *dest, RegisterOffset offset, Regist
     return rv;
 }
 
+/* area kind with an 'X': the write hook looks at another register through the library before it commits what it
+ * was handed (a write-protect key, a log of the old value ...) - the accessors must cope with being re-entered */
+static bool reenter[16];
+static int cb_depth;
+static RegisterTable *the_table(void);
+
 static RegisterAccess
 cb_write(RegisterArea *a, const RegisterAtom *src, RegisterOffset offset, RegisterOffset n)
 {
     RegisterAccess rv = REG_ACCESS_RESULT_INIT;
     size_t i = area_index(a);
+    if (reenter[i] && cb_depth == 0) {
+        RegisterValue probe;
+        cb_depth++;
+        (void)register_get(the_table(), 0, &probe);
+        cb_depth--;
+    }
     if ((uint64_t)offset + n > a->size) { rv.code = REG_ACCESS_IO_ERROR; rv.address = 0xdead; return rv; }
     memcpy(store[i] + offset, src, n * sizeof *src);
     return rv;
@@ -204,6 +217,7 @@ parse_table(const char *be, char *as, char *es, bool keep)
             for (size_t i = 0; i < a->size; i++) store[na][i] = is_mem[na] ? 0xeeee : 0xa5a5;
             if (is_mem[na]) { a->read = reg_mem_read; a->write = reg_mem_write; a->mem = store[na]; }
             else { a->read = strchr(kind, 'R') ? cb_read : NULL; a->write = strchr(kind, 'W') ? cb_write : NULL; a->mem = NULL; }
+            reenter[na] = strchr(kind, 'X') != NULL;
             na++;
         }
     }
